@@ -595,7 +595,22 @@ impl<'a> RecordBuilder<'a> {
         Ok(())
     }
 
+    /// The offset table stores end offsets as u16: the variable-length data of one
+    /// record cannot exceed `u16::MAX` bytes. Larger rows are refused instead of being
+    /// written with wrapped offsets.
+    fn check_var_data_size(&self) -> Result<()> {
+        let total: usize = self.var_data.iter().map(|v| v.len()).sum();
+        eyre::ensure!(
+            total <= u16::MAX as usize,
+            "record has {} bytes of variable-length data, more than the {} bytes the u16 offset table can address",
+            total,
+            u16::MAX
+        );
+        Ok(())
+    }
+
     pub fn build(&self) -> Result<Vec<u8>> {
+        self.check_var_data_size()?;
         let bitmap_size = self.null_bitmap.len();
         let offset_table_size = self.schema.var_column_count() * 2;
         let header_len = 2 + bitmap_size + offset_table_size;
@@ -609,10 +624,10 @@ impl<'a> RecordBuilder<'a> {
         result.extend((header_len as u16).to_le_bytes());
         result.extend(&self.null_bitmap);
 
-        let mut var_offset: u16 = 0;
+        let mut var_offset: usize = 0;
         for var_data in &self.var_data {
-            var_offset += var_data.len() as u16;
-            result.extend(var_offset.to_le_bytes());
+            var_offset += var_data.len();
+            result.extend((var_offset as u16).to_le_bytes());
         }
 
         result.extend(&self.fixed_data);
@@ -625,6 +640,7 @@ impl<'a> RecordBuilder<'a> {
     }
 
     pub fn build_into(&self, buffer: &mut Vec<u8>) -> Result<()> {
+        self.check_var_data_size()?;
         let bitmap_size = self.null_bitmap.len();
         let offset_table_size = self.schema.var_column_count() * 2;
         let header_len = 2 + bitmap_size + offset_table_size;
@@ -639,10 +655,10 @@ impl<'a> RecordBuilder<'a> {
         buffer.extend((header_len as u16).to_le_bytes());
         buffer.extend(&self.null_bitmap);
 
-        let mut var_offset: u16 = 0;
+        let mut var_offset: usize = 0;
         for var_data in &self.var_data {
-            var_offset += var_data.len() as u16;
-            buffer.extend(var_offset.to_le_bytes());
+            var_offset += var_data.len();
+            buffer.extend((var_offset as u16).to_le_bytes());
         }
 
         buffer.extend(&self.fixed_data);
